@@ -1230,6 +1230,9 @@ int QSexact_basis_dualstatus(
 	mpq_ILLfct_compute_piz (p_mpq->lp); 
 	mpq_ILLfct_compute_dz (p_mpq->lp);
 	mpq_ILLfct_compute_dobj(p_mpq->lp); 
+	/* the primal side is not evaluated here: hand over a value that is none of
+	 * the PRIMAL_* codes instead of an uninitialised one */
+	fi.pstatus = 0;
 	mpq_ILLfct_check_dfeasible (p_mpq->lp, &fi, mpq_zeroLpNum);
 	mpq_ILLfct_set_status_values (p_mpq->lp, fi.pstatus, fi.dstatus, PHASEII, PHASEII);
 
